@@ -74,10 +74,14 @@ def build_app(ap, chunks, calls):
             h.append(("Content-Length", str(cl)))
         return h
 
+    readin = ap.get("readin", "none")     # when the application reads the request body: before / mid / after its output
+
     def app(environ, start_response):
         calls.append(1)
         if fail == "before_start":
             raise drv.AppError("boom")
+        if readin == "before":
+            environ["wsgi.input"].read()
         if first:
             start_response(STATUS_TEXT.get(first[0], "%d X" % first[0]), hdrs_for(first[1]) + [("X-First", "1")])
             try:
@@ -95,11 +99,25 @@ def build_app(ap, chunks, calls):
             write(chunks[0] if chunks else b"x")
             raise drv.AppError("boom")
         if ap["prod"] == "write" and not fail:
-            for c in chunks:
+            for i, c in enumerate(chunks):
                 write(c)
+                if readin == "mid" and i == 0:
+                    environ["wsgi.input"].read()
+            if readin == "after" or (readin == "mid" and not chunks):
+                environ["wsgi.input"].read()
             return []
         if ap["prod"] in ("file", "filenofd") and not fail:
             return _file_iter(environ, ap, chunks)
+        if readin in ("mid", "after") and not fail:
+            def streaming():
+                # transform style (PEP 3333): output has started when the request body is read
+                for i, c in enumerate(chunks):
+                    yield c
+                    if readin == "mid" and i == 0:
+                        environ["wsgi.input"].read()
+                if readin == "after" or not chunks:
+                    environ["wsgi.input"].read()
+            return streaming()
 
         def gen():
             if fail == "iter_first":
@@ -139,7 +157,10 @@ def exchange(rq, wk, ap, send_fail_at=None):
     app = build_app(ap, chunks, calls)
     cfg, w = worker_for(wk["kind"], wk, app)
     extra = b"Expect: 100-continue\r\n" if ap.get("expect") else b""
-    r = drv.serve(wk["kind"], cfg, [request_bytes(rq, extra=extra)], app, worker=w, send_fail_at=send_fail_at)
+    nreq = ap.get("reqbody", 0)
+    if nreq:
+        extra += b"Content-Length: %d\r\n" % nreq
+    r = drv.serve(wk["kind"], cfg, [request_bytes(rq, extra=extra) + b"q" * nreq], app, worker=w, send_fail_at=send_fail_at)
     produced = b"".join(chunks)
     if ap["prod"] in ("file", "filenofd"):
         produced = produced[ap.get("off", 0):]
@@ -196,7 +217,8 @@ def model_awire(final):
 def sig_of(v, t, ap):
     return "C02/%s/prod=%s,ver=%d,head=%s,cl=%s,empty=%s,wk=%s" % (
         v, ap["prod"], t["rq"]["ver"], t["rq"]["head"], "none" if t["app"]["cl"] < 0 else "set",
-        t["app"]["total"] == 0, t["wk"] if v.startswith("KeptOpen") else "*")
+        t["app"]["total"] == 0, t["wk"] if v.startswith("KeptOpen") else "*") + \
+        (",request-body-read=%s%s" % (ap["readin"], ",expect" if ap.get("expect") else "") if ap.get("reqbody") else "")
 
 
 def c02(ctx):
@@ -272,6 +294,12 @@ def c02(ctx):
             ap["first"] = [rng.choice([200, 201, 404]), rng.choice([NOCL, 0, 7, 100])]
         if rng.random() < 0.1:
             ap["expect"] = True        # the server answers "100 Continue" first; still exactly one final response
+        if rng.random() < 0.2 and "fail" not in ap:
+            # the request carries a body; the application reads it before, in the middle of or after its output, or not
+            # at all (then the server has to get past it)
+            ap["reqbody"] = rng.choice([1, 10, 3000])
+            ap["readin"] = rng.choice(["none", "before", "mid", "after"])
+            ap["expect"] = rng.random() < 0.6
         t, aw, res = exchange(rq, wk, ap)
         traces.append(t)
         metas.append({"src": "rand", "rq": rq, "wk": wk, "app": ap})
